@@ -20,6 +20,7 @@ BINDINGS = {
     "can-renamed": [("impl", "can", "A", "AA", (("id", 1), ("bus", "bus1")), ())],
     "two-protocols": [("impl", "can", "A", None, (("id", 1), ("bus", "bus1")), ()), ("impl", "uart", "B", None, (("baud", 9600),), ())],
     "two-bindings-one-struct": [("impl", "can", "A", None, (("id", 1), ("bus", "bus1")), ()), ("impl", "can", "A", "A2", (("id", 2), ("bus", "bus1")), ())],
+    "outer-bound-inner-not": [("impl", "uart", "B", None, (("baud", 1),), ())],
     "big-endian": [("impl", "can", "B", None, (("id", 3), ("endianess", "big")), ())],
 }
 SERVICES = {
@@ -39,7 +40,7 @@ SERVICES = {
 def programs(tier):
     out = []
     for (bl, bd), (sl, sd), enums in itertools.product(BINDINGS.items(), SERVICES.items(), (False, True)):
-        if tier == "quick" and not (bl in ("none", "two-protocols") or sl in ("none", "A-B+B-A", "ids-255")):
+        if tier == "quick" and not (bl in ("none", "two-protocols", "outer-bound-inner-not") or sl in ("none", "A-B+B-A", "ids-255")):
             continue
         decls = [A, B] + ([E, C] if enums else []) + bd + sd
         out.append(("%s|%s|%s" % (bl, sl, "enums" if enums else "noenums"), decls))
@@ -114,6 +115,19 @@ def run_one(item):
         S.add("outcomes", "compile-error")
         S.violation("C03.compile", "C03.compile/cc-error/%s/schema:%s:%s" % (cppbuild.first_error(err), culprit, label.split("|")[0]), inp, expected="all generated headers compile as C++17", actual=err[-1200:])
         return S
+    # each generated header on its own: a header must not rely on another one having been included first
+    for hname in sorted(files):
+        if not hname.endswith(".h") or hname in ("i_can_schema.h",):
+            continue  # i_can_schema.h is an internal fragment included by can.h inside its namespace
+        per_schema = hname == "fcp.h" or hname.startswith("fcp_") or hname.endswith(("_server.h", "_client.h"))
+        if not per_schema and label != "two-protocols|A-B+B-A|enums":
+            continue  # the schema-independent headers are compiled on their own for one program only
+        S.count("executions")
+        herr = cppbuild.compile_standalone(files, hname)
+        if herr:
+            kind = "protocol-header" if hname.startswith("fcp_") else "service-header" if hname.endswith(("_server.h", "_client.h")) else hname
+            S.add("outcomes", "standalone-error")
+            S.violation("C03.compile", "C03.compile/header-does-not-compile-on-its-own/%s/%s" % (kind, cppbuild.first_error(herr)), dict(inp, header=hname), expected="compiles as the only include of a translation unit", actual=herr[-900:])
     env = refcodec.Env(decls)
     reqs, index = [], []
     names = [d[1] for d in decls if d[0] == "struct"]
